@@ -172,3 +172,165 @@ def pep563_schedule_battery(v: Verdict):
                         for m_ in (rmod, mod):
                             sys.modules.pop(m_.__name__, None)
     v.coverage["pep563_schedule_battery"] = hist
+
+
+# ------------------------------------------------------------------------------------ one preemption at every line of a first use
+
+PRE_SRC = '''
+import dataclasses, enum
+from typing import Dict, List, Literal, Optional, Union
+import attrs
+
+class Colour(enum.Enum):
+    RED = "r"
+    BLUE = "b"
+
+@attrs.define
+class Cat:
+    name: str
+    lives: int
+    colour: Colour
+    toys: List[str] = attrs.Factory(list)
+
+@attrs.define
+class Dog:
+    name: str
+    tricks: List[str]
+    age: int = 0
+
+@dataclasses.dataclass
+class DCat:
+    name: str
+    lives: int
+    kind: Literal["cat"] = "cat"
+
+@dataclasses.dataclass
+class DDog:
+    name: str
+    tricks: List[str]
+    kind: Literal["dog"] = "dog"
+
+@attrs.define
+class Shelter:
+    pets: List[Union[Cat, Dog]]
+    by_name: Dict[str, Union[DCat, DDog]]
+    star: Optional[Cat] = None
+'''
+
+
+def _pre_fresh(tag):
+    mod = types.ModuleType(f"preempt_{tag}")
+    sys.modules[mod.__name__] = mod
+    exec(compile(PRE_SRC, mod.__name__, "exec", dont_inherit=True), mod.__dict__)
+    return mod
+
+
+def _pre_scenarios():
+    def shelter(m):
+        return m.Shelter([m.Cat("c", 9, m.Colour.RED, ["t"]), m.Dog("d", ["sit"], 3)], {"x": m.DCat("dc", 7), "y": m.DDog("dd", ["roll"])}, m.Cat("s", 1, m.Colour.BLUE))
+    return [
+        ("structure a Dog payload as Union[Cat, Dog]", lambda c, m: c.structure({"name": "d", "tricks": ["sit"], "age": 2}, Union_(m.Cat, m.Dog))),
+        ("structure a DCat payload as Union[DCat, DDog]", lambda c, m: c.structure({"name": "dc", "lives": 7, "kind": "cat"}, Union_(m.DCat, m.DDog))),
+        ("unstructure a Shelter", lambda c, m: c.unstructure(shelter(m))),
+        ("structure a Shelter", lambda c, m: c.structure({"pets": [{"name": "c", "lives": 9, "colour": "r", "toys": []}, {"name": "d", "tricks": []}],
+                                                             "by_name": {"x": {"name": "dc", "lives": 1, "kind": "cat"}}, "star": None}, m.Shelter)),
+    ]
+
+
+def Union_(*ts):
+    return typing.Union[ts]
+
+
+def preemption_battery(v: Verdict, n_points: int):
+    """Two threads make the SAME first-use call on one fresh converter (fresh class objects every time, so nothing cached per class or
+    per process is left over); thread A is preempted ONCE, after its k-th executed line inside cattrs code (sys.settrace in that thread
+    only), thread B then runs its whole call, A resumes.  k sweeps over the lines A executes (evenly spaced sample + both ends).  Every
+    result -- A's, B's, and a later call's -- equals what the sequential execution returns; no call raises."""
+    from cattrs import Converter
+    hist = {"scenarios": 0, "preemption_points": 0, "lines_in_first_use": {}}
+    tag = [0]
+
+    def in_cattrs(frame):
+        fn = frame.f_code.co_filename
+        return "cattrs" in fn
+
+    def run_traced(op, conv, mod, k, mid, go_on, box):
+        count = [0]
+
+        def tracer(frame, event, arg):
+            if not in_cattrs(frame):
+                return None if event == "call" else tracer
+
+            def local(frame, event, arg):
+                if event == "line":
+                    count[0] += 1
+                    if k is not None and count[0] == k:
+                        mid.set()
+                        go_on.wait(10)
+                return local
+            return local
+        sys.settrace(tracer)
+        try:
+            box["A"] = ("ok", repr(op(conv, mod)))
+        except BaseException as e:      # noqa
+            box["A"] = ("err", type(e).__name__ + ": " + str(e)[:80])
+        finally:
+            sys.settrace(None)
+            box["lines"] = count[0]
+            mid.set()
+    for sname, op in _pre_scenarios():
+        hist["scenarios"] += 1
+        # sequential reference + number of lines of a first use
+        tag[0] += 1
+        rmod = _pre_fresh(f"r{tag[0]}")
+        rconv = Converter()
+        box = {}
+        run_traced(op, rconv, rmod, None, threading.Event(), threading.Event(), box)
+        total = box["lines"]
+        ref = box["A"]
+        ref2 = ("ok", repr(op(rconv, rmod)))
+        sys.modules.pop(rmod.__name__, None)
+        hist["lines_in_first_use"][sname] = total
+        if ref[0] != "ok" or ref2 != ref:
+            v.violation("the sequential reference run of a first use failed or is not repeatable", {"lane": "THR/C19 preemption", "scenario": sname, "first": ref, "second": ref2})
+            continue
+        step = max(1, total // max(1, n_points))
+        points = sorted(set(list(range(1, total + 1, step)) + [1, 2, total - 1, total]))
+        for k in points:
+            if k < 1 or k > total:
+                continue
+            tag[0] += 1
+            mod = _pre_fresh(f"p{tag[0]}")
+            conv = Converter()
+            mid, go_on, box = threading.Event(), threading.Event(), {}
+            ta = threading.Thread(target=run_traced, args=(op, conv, mod, k, mid, go_on, box), daemon=True)
+            ta.start()
+            mid.wait(20)
+
+            def run_b():
+                try:
+                    box["B"] = ("ok", repr(op(conv, mod)))
+                except BaseException as e:      # noqa
+                    box["B"] = ("err", type(e).__name__ + ": " + str(e)[:80])
+            tb = threading.Thread(target=run_b, daemon=True)
+            tb.start()
+            tb.join(20)
+            go_on.set()
+            ta.join(20)
+            hist["preemption_points"] += 1
+            v.count(repr(("preempt", sname, k)), True)
+            try:
+                later = ("ok", repr(op(conv, mod)))
+            except BaseException as e:      # noqa
+                later = ("err", type(e).__name__ + ": " + str(e)[:80])
+            sys.modules.pop(mod.__name__, None)
+            norm = lambda r: (r[0], r[1].replace(mod.__name__, "M")) if r else r
+            want = (ref[0], ref[1].replace(rmod.__name__, "M"))
+            got = {"A": norm(box.get("A")), "B": norm(box.get("B")), "later": norm(later)}
+            bad = [t for t, r in got.items() if r != want]
+            if bad:
+                v.violation("concurrent first use returned something else than the sequential execution (or raised)",
+                            {"lane": "THR/C19 preemption", "scenario": sname, "schedule": f"thread A preempted after line {k} of {total} executed inside cattrs; thread B runs the same call to completion; A resumes",
+                             "differs": bad[0], "got": repr(got[bad[0]])[:300], "sequential": repr(want)[:300]})
+                break
+    v.coverage["preemption_battery"] = hist
